@@ -212,10 +212,28 @@ def process(doc, render=False):
         tex.disableLogging()
         tex.input(src)
     doc = tex.parse()
-    out = {"xml": canon(doc.toXML())}
+    out = {"xml": canon(doc.toXML() + _derived(doc))}
     if render:
         out["files"] = render_doc(doc)
     return out
+
+
+def _derived(doc):
+    """What a renderer reads beyond the tree: the printed form of every citation and the number behind every
+    reference (toXML shows the keys only)."""
+    out = ["\n<!-- derived -->"]
+    for n in doc.getElementsByTagName("cite"):
+        try:
+            out.append("cite %s -> %s" % (n.attributes.get("bibkeys"), n.citation().textContent))
+        except Exception as exc:        # noqa
+            out.append("cite %s raises %s" % (n.attributes.get("bibkeys"), type(exc).__name__))
+    for tag in ("ref", "pageref"):
+        for n in doc.getElementsByTagName(tag):
+            t = n.idref.get("label") if getattr(n, "idref", None) else None
+            r = getattr(t, "ref", None)
+            out.append("%s %s -> %s %s" % (tag, n.attributes.get("label"), getattr(t, "nodeName", None),
+                                           getattr(r, "textContent", r)))
+    return "\n".join(out)
 
 
 _render_n = [0]
